@@ -12,7 +12,9 @@ LETTERS = {
     "H1": wire.hdr("sid-1", "1.0", True), "H0": wire.hdr("sid-2", None, True), "H09": wire.hdr("sid-3", "0.9", True), "Hnoid": wire.hdr("x", "1.0", False), "H0noid": wire.hdr("x", None, False),
     "Ftls": wire.features(wire.F_STARTTLS), "Ftls+mech": wire.features(wire.F_STARTTLS, wire.f_mechs(("PLAIN", "SCRAM-SHA-1"))), "Ftlsreq+all": wire.features(wire.F_STARTTLS_REQ, wire.f_mechs(("PLAIN",)), wire.f_sasl2(("PLAIN",), fast=("HT-SHA-256-NONE",)), wire.F_LEGACY, wire.F_BIND, wire.F_SM),
     "Fmech": wire.features(wire.f_mechs(("PLAIN", "SCRAM-SHA-1", "DIGEST-MD5"))), "Flegacy": wire.features(wire.F_LEGACY), "Fsasl2": wire.features(wire.f_sasl2(("PLAIN", "SCRAM-SHA-1"), fast=("HT-SHA-256-NONE",))),
-    "Fbind": wire.features(wire.F_BIND, wire.F_SM), "Fempty": wire.features(),
+    "Fbind": wire.features(wire.F_BIND, wire.F_SM), "Fempty": wire.features(), "Fplain": wire.features(wire.f_mechs(("PLAIN",))),
+    "bind-result": "<iq type='result' id='$ID'><bind xmlns='urn:ietf:params:xml:ns:xmpp-bind'><jid>%s</jid></bind></iq>" % wire.JID,
+    "roster-result": "<iq type='result' id='$ID'><query xmlns='jabber:iq:roster'/></iq>",
     "proceed": "<proceed xmlns='%s'/>" % NS_TLS, "tlsfail": "<failure xmlns='%s'/>" % NS_TLS,
     "legacy-fields": "<iq type='result' id='$ID'><query xmlns='jabber:iq:auth'><username/><password/><digest/><resource/></query></iq>",
     "legacy-fields-anyid": "<iq type='result' id='qxmpp3'><query xmlns='jabber:iq:auth'><username/><password/><resource/></query></iq>",
@@ -37,6 +39,8 @@ CONFIGS = {
     "sasl-off": {"sasl": False, "nonsasl": True, "sasl2": False},
     "prefer-plain": {"mechanism": "PLAIN"},
     "receipts": {"managers": ["receipts", "carbons2"]},
+    "keepalive": {"keepAlive": 1},
+    "keepalive+sasl2": {"keepAlive": 1, "sasl2": True, "userAgent": True},
 }
 
 
@@ -57,6 +61,21 @@ def build(word, cfg, positive=False):
             # a server that really negotiates TLS (positive control), provided the client asked for it
             steps.append(dict(op="send", xml=LETTERS[l], startTls=True, ifRequested="starttls", timeout=1500))
             steps.append(dict(op="settle", quiet=6, timeout=400))
+            continue
+        if l == "sm-enabled":
+            steps.append(dict(op="send", xml="<enabled xmlns='urn:xmpp:sm:3' id='sm-c04' resume='true'/>", smOn=True))
+            steps.append(dict(op="settle", quiet=6, timeout=400))
+            continue
+        if l == "cut":
+            steps.append(dict(op="cut"))
+            steps.append(dict(op="wait_signal", name="disconnected", optional=True, timeout=1000))
+            continue
+        if l == "reconnect":
+            steps.append(dict(op="connect"))
+            steps.append(dict(op="await_accept", rel=0, optional=True, timeout=1000))
+            continue
+        if l.startswith("sleep"):
+            steps.append(dict(op="sleep", ms=int(l[5:])))
             continue
         if l == "see-other+close":
             # a real server closes the connection after the redirecting stream error
@@ -148,6 +167,10 @@ def judge(word, cfg, out, viol, stats):
             stats["gave_up_ok"] += 1
     if tls_done:
         stats["tls_sessions"] += 1
+        if any(e["ev"] == "cli_sig" and e["name"] == "connected" for e in j):
+            stats["sessions_established_over_tls"] += 1
+            if "reconnect" in word and len(tls_done) > 1:
+                stats["second_connection_encrypted_again"] += 1
     if any(e["ev"] == "cli_sig" and e["name"] == "connected" for e in j) and not tls_done:
         viol.append(("session-without-tls trigger=%s" % trigger_of(word), "the client reported an established session although the link was never encrypted", w))
 
@@ -155,6 +178,8 @@ def judge(word, cfg, out, viol, stats):
 def trigger_of(word):
     """coarse description of the server behaviour (for stable signatures)"""
     w = list(word)
+    if "reconnect" in w:
+        return "second-connection-after-a-lost-resumable-session"
     if any(l in ("H0", "H09", "H0noid") for l in w):
         return "stream-header-without-1.0-version"
     for l in w:
@@ -207,11 +232,22 @@ def main(tier, replay=None):
             for f2 in ("Fmech", "Fsasl2", "Flegacy", "Ftlsreq+all"):
                 jobs.append((("H1", f1, "proceed", "TLS", "H1", f2), cfg))
     # a session that was properly encrypted and authenticated, then moved elsewhere by the server: the new link is plain again
-    authed = ("H1", "Ftls+mech", "proceed", "TLS", "H1", "Fmech", "success", "H1")
+    # (only PLAIN is offered after TLS: a bare <success/> is a complete PLAIN exchange, for SCRAM it would rightly be refused)
+    authed = ("H1", "Ftls+mech", "proceed", "TLS", "H1", "Fplain", "success", "H1")
     for cfg in ("default", "prefer-plain", "receipts"):
         for tail in [(so,) + w for so in ("see-other", "see-other+close") for d in (1, 2) for w in itertools.product(["H1", "Fbind", "Fmech", "Fempty", "Ftls", "iq-get-version", "message"], repeat=d)]:
             jobs.append((authed + tail, cfg))
             jobs.append((authed + ("Fbind", "iq-result") + tail, cfg))
+    # timers that outlive a session: keep-alive pings, a resumable stream-management session, a lost connection, and a second connection on
+    # which the server takes its time at every point before the link is encrypted
+    session = ("H1", "Ftls+mech", "proceed", "TLS", "H1", "Fplain", "success", "H1", "Fbind", "bind-result", "sm-enabled", "roster-result")
+    for cfg in ("keepalive", "keepalive+sasl2", "default"):
+        for idle in ("sleep300", "sleep1300"):
+            for end in (("cut",), ("sleep1200", "cut"), ("stream-error", "cut")):
+                for slow in itertools.product(("sleep20", "sleep1300"), repeat=3):
+                    if tier == "quick" and slow.count("sleep1300") > 1 and cfg != "keepalive":
+                        continue
+                    jobs.append((session + (idle,) + end + ("reconnect", slow[0], "H1", slow[1], "Ftls+mech", slow[2], "proceed", "TLS", "H1", "Fmech"), cfg))
     all_letters = list(LETTERS) + ["see-other+close"]
     for _ in range(3000 if tier == "quick" else 100000):
         n = r.choice([3, 5, 8, 10])
@@ -235,6 +271,6 @@ def main(tier, replay=None):
                    "configurations, random words to length 10 over the full alphabet x 7 configurations, plus positive-control scripts in which the fake server really completes STARTTLS with a committed test certificate; the server's "
                    "plaintext transcript is classified element by element and searched for the configured secrets in their encodings; distinct scripts counted" % (len(LETTERS), depth, len(SMALL), len(cfgs)),
            "observed": dict(stats), "samples": [{"server_script": ["H0", "legacy-fields"], "client_config": "legacy-on"}]}
-    floors = {"scripts": stats["scripts"] > 1000, "tls_positive_control": stats["tls_sessions"] > 0 and stats["credentials_after_tls"] > 0, "gave_up": stats["gave_up_ok"] > 0, "starttls_requests": stats["starttls_requests"] > 0}
+    floors = {"scripts": stats["scripts"] > 1000, "tls_positive_control": stats["tls_sessions"] > 0 and stats["credentials_after_tls"] > 0, "gave_up": stats["gave_up_ok"] > 0, "starttls_requests": stats["starttls_requests"] > 0, "sessions_over_tls": stats["sessions_established_over_tls"] > 20, "second_connections": stats["second_connection_encrypted_again"] > 5}
     V.finish(cov, "exploration", ["the fake server sees exactly the bytes the client hands to its socket before the TLS handshake; TLS itself (OpenSSL via Qt) is trusted",
                                   "nonzas other than SASL elements sent in clear (e.g. <a/>) are recorded, not judged"], floors)
